@@ -659,6 +659,14 @@ def normalise_function_renames(repo: Repo) -> list[str]:
         same = [f for f in new if f.module.name == mod and
                 scope_of(f.qualname) == scope_of(qual) and
                 f.params() == REFERENCE_SIGS[v] and f.fq not in taken]
+        if not same:
+            # parameters renamed along with the function: same arity, same
+            # receiver convention
+            same = [f for f in new if f.module.name == mod and
+                    scope_of(f.qualname) == scope_of(qual) and
+                    len(f.params()) == len(REFERENCE_SIGS[v]) and
+                    f.params()[:1] == REFERENCE_SIGS[v][:1] and
+                    f.fq not in taken]
         if len(same) == 1 and same[0].name not in ref_names and \
                 same[0].name not in renames:
             taken.add(same[0].fq)
